@@ -619,3 +619,35 @@ J(name="c11.cellToVertex", props=["C11", "C12", "C18"], harness="c11.c", entry="
            "vertexNumForDirection/vertexNumForDirection_frame", "directionForNeighbor/directionForNeighbor_frame"],
   exclude=[(r"cellToVertex\.overflow\.\d+ .*\(uint64_t\)ownerVertexNum", "signed-to-unsigned conversion (defined behaviour) of a vertex number that is -1 only "
             "when the vertex-number lookup fails; whether that is reachable depends on vertexNumForDirection, a frame-only contract here")])
+
+# ------------------------------------------------------------------ C19
+PROPS["C19"] = dict(
+    level="other",
+    explanation="output-shape clauses by an enforced (recursive) contract with loop contracts: the maxFaceCount slots hold distinct face numbers "
+                "0..19 followed by -1 padding, every vertex of the cell is examined (5/6) and the face of every examined vertex is reported; "
+                "maxFaceCount == 5 for a pentagon else 2. Exhaustive over the finite set of all 192 pentagons (symbolic base cell x "
+                "resolution, real function with all real callees): success with five distinct faces.",
+    trusted_base=["_adjustOverageClassII / _adjustPentVertOverage produce a face in 0..19 (assumed frame contracts in the shape proof; the "
+                  "pentagon enumeration uses the real ones)"], assumptions=[],
+    not_decided=["the reported faces are exactly those the cell's interior meets (geometry)", "a valid hexagon always succeeds with one or two faces"],
+    level_text="Unbounded proof of the shape clauses; complete enumeration of the pentagon clause; the geometric meaning is not decided.",
+    level_note="Category 'other': partial.")
+J(name="c19.getIcosahedronFaces", props=["C19", "C12", "C18"], harness="c19.c", entry="h_getIcosahedronFaces", rec=True,
+  enforce=["getIcosahedronFaces"],
+  replace=["isPentagon", "maxFaceCount", "_h3ToFaceIjk/_h3ToFaceIjk_frame", "_faceIjkToVerts/_faceIjkToVerts_frame",
+           "_faceIjkPentToVerts/_faceIjkPentToVerts_frame", "_adjustOverageClassII/_adjustOverageClassII_frame",
+           "_adjustPentVertOverage/_adjustPentVertOverage_frame"],
+  loops=[dict(fn="getIcosahedronFaces", loop=0, locals=["i#0", "faceCount", "out"], assigns="i_0, __CPROVER_object_whole(out)",
+              inv="0 <= i_0 && i_0 <= faceCount && (faceCount == 2 || faceCount == 5) && ((0 <= h3v_g && h3v_g < i_0) ==> out[h3v_g] == -1) && "
+                  "((0 <= h3v_g2 && h3v_g2 < i_0) ==> out[h3v_g2] == -1)"),
+         dict(fn="getIcosahedronFaces", loop=1, locals=["pos", "faceCount", "out", "face"], assigns="pos",
+              inv="0 <= pos && pos < faceCount && ((0 <= h3v_g && h3v_g < pos) ==> (out[h3v_g] != -1 && out[h3v_g] != face))"),
+         dict(fn="getIcosahedronFaces", loop=2, locals=["i#1", "vertexCount", "faceCount", "out", "fijkVerts", "isPent"],
+              assigns="i_1, __CPROVER_object_whole(out), __CPROVER_object_whole(fijkVerts), h3v_adj_calls, h3v_seen",
+              inv="0 <= i_1 && i_1 <= vertexCount && h3v_adj_calls == i_1 && (faceCount == 2 || faceCount == 5) && "
+                  "vertexCount == (isPent ? 5 : 6) && faceCount == (isPent ? 5 : 2) && "
+                  "((0 <= h3v_g && h3v_g < faceCount) ==> (out[h3v_g] >= -1 && out[h3v_g] <= 19)) && "
+                  "((0 <= h3v_g && h3v_g < h3v_g2 && h3v_g2 < faceCount) ==> ((out[h3v_g] == -1 ==> out[h3v_g2] == -1) && "
+                  "(out[h3v_g2] != -1 ==> out[h3v_g] != out[h3v_g2]))) && "
+                  "(h3v_seen ==> (out[0] == h3v_wf || out[1] == h3v_wf || (faceCount == 5 && (out[2] == h3v_wf || out[3] == h3v_wf || out[4] == h3v_wf))))")])
+J(name="c19.pentagons", props=["C19"], harness="c19.c", entry="h_pentagon_faces", unwind=18, timeout=2400, tier="never")  # symbolic over the 192 pentagons: does not finish
